@@ -194,7 +194,11 @@ class ComponentLink(object, metaclass=ContractsMeta):
         # In some cases, linking functions return ravelled arrays, so we
         # fix this here.
         logger.debug("shape of result: %s", result.shape)
-        if result.shape != args[0].shape:
+        if result.size == 1:
+            # A single value (e.g. if the function returned a scalar) is
+            # broadcast to the desired shape below.
+            result = result.reshape(())
+        elif result.shape != args[0].shape:
             logger.debug("ComponentLink function %s changed shape. Fixing",
                          self._using.__name__)
             result.shape = args[0].shape
